@@ -19,7 +19,8 @@ TECHNIQUE = ("property-based testing (Hypothesis): differential between access p
 RULE = ("Crystals with stable spring models (>= 2 species when NAC is on), NAC none|wang|gonze, OpenMP and serial builds; "
         "q-lists incl. zone-boundary and out-of-zone points presented in six array layouts; the full product with_eigenvectors "
         "x with_group_velocities x with_dynamical_matrices (8 combinations, exhaustive per case); band connection on/off; "
-        "Mesh and IterMesh with and without eigenvectors. Non-trivial: n_band >= 6 and >= 2 q-points. Distinct by spec hash.")
+        "Mesh and IterMesh with and without eigenvectors; default and non-default unit factor; results handed out earlier re-read after an "
+        "unrelated call of the same size. Non-trivial: n_band >= 6 and >= 2 q-points. Distinct by spec hash.")
 ASSUMPTIONS = [
     "frequencies are compared as eigenvalues lambda = sign(nu)(nu/factor)^2 with 1e-10 max|lambda| (sqrt is not Lipschitz at 0)",
     "group velocities are compared on modes separated by > 1e-2 THz from their neighbours",
